@@ -510,35 +510,88 @@ func runC13Dup(c *Ctx) {
 			cs = q
 		}
 	}
-	// the membership test on the set of keys seen so far: a comma-ok lookup in a map made in this function, inside a loop
-	var lookup *ssa.Lookup
+	// the membership test on the set of keys seen so far: (A) a comma-ok lookup in a map made in this function, inside a
+	// loop, or (B) a scan of the entries collected so far that compares their id with the key and leaves a non-nil mark
+	// (the position of the first definition) when one matches
+	var lookup ssa.Instruction // the anchor of the test: the lookup (A) or the comparison of the scan (B)
+	var keyVal ssa.Value        // the key that is tested
+	var remembered ssa.Value    // what stands for the first definition (the looked-up value / the mark)
+	var setMap ssa.Value        // (A) the set
+	var okIf *ssa.If
+	seenIdx := 0
 	eachInstr(fn, func(b *ssa.BasicBlock, _ int, in ssa.Instruction) {
 		if lk, ok := in.(*ssa.Lookup); ok && lk.CommaOk && blockInCycle(b) {
 			if _, made := lk.X.(*ssa.MakeMap); made {
-				lookup = lk
+				lookup, keyVal, remembered, setMap = lk, lk.Index, lk, lk.X
 			}
 		}
 	})
+	if lk, isA := lookup.(*ssa.Lookup); isA {
+		for _, ref := range *lk.Referrers() {
+			if ex, isEx := ref.(*ssa.Extract); isEx && ex.Index == 1 {
+				for _, r2 := range *ex.Referrers() {
+					if ifi, isIf := r2.(*ssa.If); isIf {
+						okIf = ifi
+					}
+				}
+			}
+		}
+	} else {
+		// (B): an If on `mark != nil` where mark is a phi of nil and a value taken from an element of the collected entries
+		// under `elem.id == key`
+		for _, blk := range fn.Blocks {
+			ifi, isIf := blk.Instrs[len(blk.Instrs)-1].(*ssa.If)
+			if !isIf || !blockInCycle(blk) {
+				continue
+			}
+			v, nilSucc, isNil := nilTest(ifi)
+			ph, isPhi := v.(*ssa.Phi)
+			if !isNil || !isPhi {
+				continue
+			}
+			hasNil := false
+			var cmp *ssa.BinOp
+			for i, e := range ph.Edges {
+				if isNilConst(e) {
+					hasNil = true
+					continue
+				}
+				// the edge comes from the true side of a comparison of an entry's id with the key
+				for ci, outcome := range controllingConds(ph.Block().Preds[i]) {
+					if bo, isBo := ci.Cond.(*ssa.BinOp); isBo && bo.Op == token.EQL && outcome {
+						if f, _ := fieldLoad(bo.X); f == "workflowKeyVal.id" {
+							cmp = bo
+						}
+					}
+				}
+				if pb := ph.Block().Preds[i]; cmp == nil && len(pb.Instrs) > 0 {
+					if ci, isCi := pb.Instrs[len(pb.Instrs)-1].(*ssa.If); isCi {
+						if bo, isBo := ci.Cond.(*ssa.BinOp); isBo && bo.Op == token.EQL && pb.Succs[0] == ph.Block() {
+							if f, _ := fieldLoad(bo.X); f == "workflowKeyVal.id" {
+								cmp = bo
+							}
+						}
+					}
+				}
+			}
+			if hasNil && cmp != nil {
+				lookup, keyVal, remembered, okIf, seenIdx = cmp, cmp.Y, ph, ifi, 1-nilSucc
+			}
+		}
+	}
 	if lookup == nil || cs == nil {
 		c.bad("(*parser).parseMapping|duplicate test", fn.Pos(), "no membership test on a set of seen keys in the key loop")
 		return
 	}
-	// its outcome decides a branch: the branch for a key already seen reports and goes on with the next key
-	var okIf *ssa.If
-	for _, ref := range *lookup.Referrers() {
-		if ex, isEx := ref.(*ssa.Extract); isEx && ex.Index == 1 {
-			for _, r2 := range *ex.Referrers() {
-				if ifi, isIf := r2.(*ssa.If); isIf {
-					okIf = ifi
-				}
-			}
-		}
+	testBlock := lookup.Block()
+	if okIf != nil {
+		testBlock = okIf.Block()
 	}
 	var stores, apps []ssa.Instruction
 	eachInstr(fn, func(_ *ssa.BasicBlock, _ int, in ssa.Instruction) {
 		switch x := in.(type) {
 		case *ssa.MapUpdate:
-			if x.Map == lookup.X {
+			if setMap != nil && x.Map == setMap {
 				stores = append(stores, x)
 			}
 		case *ssa.Call:
@@ -547,17 +600,20 @@ func runC13Dup(c *Ctx) {
 			}
 		}
 	})
+	if setMap == nil {
+		stores = append(stores, apps...) // (B): the collected entries are the set
+	}
 	if okIf == nil {
 		c.bad("(*parser).parseMapping|duplicate test", lookup.Pos(), "the result of the membership test does not decide a branch")
 	} else {
-		seen := okIf.Block().Succs[0]
-		notSeen := okIf.Block().Succs[1]
+		seen := okIf.Block().Succs[seenIdx]
+		notSeen := okIf.Block().Succs[1-seenIdx]
 		// the rest of the iteration on the path of a key already seen: everything reachable from the true successor of the
 		// test without passing the head of the key loop (the innermost loop around the test) again
 		stop := map[*ssa.BasicBlock]bool{}
 		var head *ssa.BasicBlock
 		for _, h := range loopHeaders(fn) {
-			if body := naturalLoop(h); body[lookup.Block()] && (head == nil || naturalLoop(head)[h]) {
+			if body := naturalLoop(h); body[testBlock] && (head == nil || naturalLoop(head)[h]) {
 				head = h
 			}
 		}
@@ -608,7 +664,7 @@ func runC13Dup(c *Ctx) {
 		var keyCall *ssa.Call
 		eachInstr(fn, func(_ *ssa.BasicBlock, _ int, in ssa.Instruction) {
 			if call, ok := in.(*ssa.Call); ok && keyCall == nil {
-				if g := staticCallee(&call.Call); g != nil && FuncName(g) == "(*parser).parseString" && computedFrom(lookup.Index, call, 6) {
+				if g := staticCallee(&call.Call); g != nil && FuncName(g) == "(*parser).parseString" && computedFrom(keyVal, call, 6) {
 					keyCall = call
 				}
 			}
@@ -635,7 +691,7 @@ func runC13Dup(c *Ctx) {
 					posBad = "the key that is looked up is not the result of parseString on the key node"
 				case f == "String.Pos" && base == ssa.Value(keyCall):
 				case len(keyCall.Call.Args) > 1 && arg == keyCall.Call.Args[1]:
-				case computedFrom(arg, lookup, 4):
+				case computedFrom(arg, remembered, 4):
 					posBad = "the report is placed at the remembered position of the first definition, not at the repeated key"
 				default:
 					posBad = "the position of the report is not that of the key just read"
@@ -664,7 +720,7 @@ func runC13Dup(c *Ctx) {
 	}
 	// the key that is tested: the scalar's text, lower-cased exactly when the mapping is not case-sensitive - written inline
 	// or in a helper that gets the flag
-	if foldedUnder(lookup.Index, cs, 0) {
+	if foldedUnder(keyVal, cs, 0) {
 		c.ok("(*parser).parseMapping|case folding", lookup.Pos(), "the key is lower-cased iff !"+cs.Name()+" before the duplicate test")
 	} else {
 		c.bad("(*parser).parseMapping|case folding", lookup.Pos(), "the key is not lower-cased under `!"+cs.Name()+"` before the duplicate test")
